@@ -44,6 +44,7 @@ MIN_REACH = {
     "reaps_of_crops_with_surplus_falsy_results": {"quick": 40, "thorough": 150},
     "reaps_with_warnings_turned_into_errors": {"quick": 100, "thorough": 300},
     "harvester_reaps_naming_a_merge_policy": {"quick": 30, "thorough": 100},
+    "sampler_crops_whose_table_does_not_exist_yet": {"quick": 30, "thorough": 100},
 }
 TIME_BUDGET = {"quick": 400, "thorough": 3400}
 
@@ -270,6 +271,7 @@ def run_case(ctx, case):
     w = {"mode": "grid", "combos": [["a", avals]], "names": None, "cases": None, "constants": {}, "kind": pkind}
     data_file = None
     farmer = None
+    pre_rows = 0
 
     def expected(p, ver=None):
         kw = dict(p)
@@ -306,7 +308,11 @@ def run_case(ctx, case):
                     data_file = os.path.join(tmp, "sdata.pkl")
                     farmer = xyzpy.Sampler(runner, data_name=data_file, default_combos={"a": avals})
                     np.random.seed(case["idx"])
-                    farmer.sample_combos(2, verbosity=0)
+                    if case["idx"] % 2:
+                        farmer.sample_combos(2, verbosity=0)
+                        pre_rows = 2
+                    else:
+                        ctx.count("sampler_crops_whose_table_does_not_exist_yet")      # the reap is the table's first ever sync
                 crop = farmer.Crop(name=name, parent_dir=tmp, batchsize=bs)
                 crop.shuffle = case["shuffle"]
             if kind == "sampler":
@@ -474,6 +480,11 @@ def run_case(ctx, case):
                 bad.append("crop directory still exists after the successful retry (clean-up applies)")
             if not eff_clean and after2 is None:
                 bad.append("crop directory deleted by the retry although clean-up does not apply")
+            if kind == "sampler" and not bad:
+                disk = xyzpy.load_df(data_file)
+                if len(disk) != pre_rows + n or len(farmer.full_df) != pre_rows + n:
+                    bad.append("after the retry the sampler's table has %d rows on disk and %d in memory, expected %d (%d before + the crop's %d)" % (
+                        len(disk), len(farmer.full_df), pre_rows + n, pre_rows, n))
             if kind == "harvester" and not bad:
                 if farmer._full_ds is not None:
                     farmer._full_ds.close()
@@ -497,8 +508,8 @@ def run_case(ctx, case):
                         break
             else:
                 disk = xyzpy.load_df(data_file)
-                if len(disk) != 2 + n:
-                    bad.append("sampler file has %d rows, expected %d" % (len(disk), 2 + n))
+                if len(disk) != pre_rows + n:
+                    bad.append("sampler file has %d rows, expected %d" % (len(disk), pre_rows + n))
         except Exception as e:
             bad.append("reading the farmer's file raised %r" % (e,))
     for msg in bad[:2]:
